@@ -369,7 +369,9 @@ class RenderContext:
             ctx = self.__class__(
                 template or self.template,
                 global_data=ReadOnlyChainMap(namespace, self.scope),
-                disabled_tags=disabled_tags,
+                # A block is part of the template it is rendered in: tags that
+                # are disabled there (`include` inside `render`) stay disabled.
+                disabled_tags=disabled_tags or self.disabled_tags,
                 copy_depth=self._copy_depth + 1,
                 parent=self,
                 loop_iteration_carry=loop_iteration_carry,
